@@ -191,6 +191,10 @@ pub fn one_run(cfg: &Cfg, rc: &RunCfg, acc: &mut Acc) -> (Option<J>, u64, bool) 
     if let Outcome::Stall { .. } = rep.outcome { anomalies.push(("stall".into(), false, format!("run stalled: {}", rep.outcome_json().to_string()))) }
     let complete = rep.outcome == Outcome::Done;
     let acc_set: HashSet<u64> = accepted.iter().copied().collect();
+    // The steady listeners are created first: they own the lowest stream ids, every lower id stays in use for the whole run, so their positions in the live-listener
+    // list never change -- each rewrite stores the very same id at the very same position again (creation and removal of the higher ids only touch the entries
+    // behind them). The unsynchronised rewrite (C17-D8) therefore cannot reach them in this workload, and on the unchanged tree it never did (0 such anomalies in
+    // 10^5 runs): an anomaly of a steady listener is never attributed to the known finding, whatever the affected send overlapped.
     for (li, l) in clogs.iter().enumerate() {
         let ys = l.yields.lock().unwrap();
         let mut seen: HashSet<u64> = HashSet::new();
@@ -199,12 +203,12 @@ pub fn one_run(cfg: &Cfg, rc: &RunCfg, acc: &mut Acc) -> (Option<J>, u64, bool) 
             if !*valid { anomalies.push(("corrupt".into(), false, format!("steady listener {li} yielded a corrupted payload"))) }
             if open_ids.contains(id) { continue }          // (the send of that event panicked half-way: neither accepted nor rejected)
             if !acc_set.contains(id) { anomalies.push(("never_accepted".into(), false, format!("steady listener {li} yielded {id}, which no send reported as accepted"))); continue }
-            if !seen.insert(*id) { anomalies.push(("duplicated".into(), overlaps_churn(id), format!("steady listener {li} yielded event {id} twice"))) }
+            if !seen.insert(*id) { anomalies.push(("duplicated".into(), false, format!("steady listener {li} yielded event {id} twice{}", if overlaps_churn(id) { " (its send overlapped a create / drop-listener operation)" } else { "" }))) }
             let (p, k) = (id >> shift, id & ((1 << shift) - 1));
-            if let Some(prev) = last.get(&p) { if *prev > k { anomalies.push(("reordered".into(), overlaps_churn(id), format!("steady listener {li} yielded event #{k} of producer {p} after #{prev}"))) } }
+            if let Some(prev) = last.get(&p) { if *prev > k { anomalies.push(("reordered".into(), false, format!("steady listener {li} yielded event #{k} of producer {p} after #{prev}"))) } }
             last.insert(p, k);
         }
-        if complete { for a in &accepted { if !seen.contains(a) { anomalies.push(("missed".into(), overlaps_churn(a), format!("steady listener {li} never yielded accepted event {a}"))) } } }
+        if complete { for a in &accepted { if !seen.contains(a) { anomalies.push(("missed".into(), false, format!("steady listener {li} never yielded accepted event {a}{}", if overlaps_churn(a) { " (its send overlapped a create / drop-listener operation)" } else { "" }))) } } }
     }
     // churned listeners: per producer, a contiguous run of that producer's accepted events, no repeats
     for (ci, got) in churn.listeners.lock().unwrap().iter().enumerate() {
